@@ -420,6 +420,7 @@ func (p *ProjectRunner) RestartProcess(name string) error {
 			log.Err(err).Msgf("failed to stop process %s", name)
 			return err
 		}
+		proc.waitForCompletion()
 		time.Sleep(proc.getBackoff())
 		verifPointR(p, "restart_stopped", name)
 	}
